@@ -45,17 +45,76 @@ def visitIncs (fm : FileMap) (visit : Nat → Graph → Except Err Graph) (stack
           visitIncs fm visit stack parent ptf r
             { g' with edges := addEdge parent d.file (resolveInclude ptf d) g'.edges }
 
-/-- `Reader.include`: add the vertex, read the file, explore its includes -/
+/-! ### What the decoder guarantees: no key is used twice
+
+`Tasks.UnmarshalYAML`, `Includes.UnmarshalYAML` and `Vars.UnmarshalYAML` walk their mapping
+node by hand; each refuses a key that an earlier pair of the same mapping already used
+(`duplicateKeyError`, a `TaskfileDecodeError`).  A file is a list of pairs here, exactly
+what the YAML mapping is, so the check is part of reading a file. -/
+
+def nodupNames : List Name → Bool
+  | [] => true
+  | a :: r => !r.contains a && nodupNames r
+
+/-- no duplicate key in `tasks:`, `includes:`, the file's `vars:` / `env:`, the `vars:` of
+any task and the `vars:` of any include statement -/
+def Taskfile.wellKeyed (tf : Taskfile) : Bool :=
+  nodupNames tf.tasks.names && nodupNames (tf.includes.map (·.ns))
+    && nodupB tf.vars.keys && nodupB tf.env.keys
+    && tf.tasks.all (fun t => nodupB t.vars.keys) && tf.includes.all (fun d => nodupB d.vars.keys)
+
+/-- `Reader.include`: add the vertex, read the file (a duplicate key is a decode error,
+before the version is looked at), explore its includes -/
 def visit (fm : FileMap) : Nat → List Nat → Nat → Graph → Except Err Graph
   | 0, _, _, _ => .error .internal
   | fuel + 1, stack, f, g =>
     match Store.get f fm with
     | none => .error .missing
     | some tf =>
-      if tf.version = 0 then .error .versionCheck
+      if !tf.wellKeyed then .error .decode
+      else if tf.version = 0 then .error .versionCheck
       else
         visitIncs fm (fun c g' => visit fm fuel (f :: stack) c g') stack f tf tf.includes
           { g with verts := g.verts ++ [(f, tf)] }
+
+/-! ### `Reader.firstError`: which error is reported
+
+The includes are read concurrently; when that fails, `Reader.Read` does not return the error
+the concurrent read met first in time but walks over what was recorded for every file read
+— the error of reading it, per include the error of resolving it or the file included —
+depth first, includes in declaration order, and returns the first error.  The records are a
+function of the files (every file is read exactly once, by whichever goroutine reaches it
+first), so the walk is a function of the file map: no schedule appears in it.  `walk` is that
+function; `walk_eq_visit` (ReaderLemmas) proves it reports exactly the error of `visit`. -/
+
+def walkIncs (fm : FileMap) (walk : Nat → List Nat → Except Err (List Nat)) (stack : List Nat)
+    (parent : Nat) : List IncludeDecl → List Nat → Except Err (List Nat)
+  | [], seen => .ok seen
+  | d :: r, seen =>
+    match Store.get d.file fm with
+    | none => if d.optional then walkIncs fm walk stack parent r seen else .error .missing
+    | some _ =>
+      if d.file = parent ∨ d.file ∈ stack then .error .cycle
+      else
+        match (if seen.contains d.file then .ok seen else walk d.file seen) with
+        | .error e => .error e
+        | .ok seen' => walkIncs fm walk stack parent r seen'
+
+def walk (fm : FileMap) : Nat → List Nat → Nat → List Nat → Except Err (List Nat)
+  | 0, _, _, _ => .error .internal
+  | fuel + 1, stack, f, seen =>
+    match Store.get f fm with
+    | none => .error .missing
+    | some tf =>
+      if !tf.wellKeyed then .error .decode
+      else if tf.version = 0 then .error .versionCheck
+      else walkIncs fm (fun c s => walk fm fuel (f :: stack) c s) stack f tf.includes (seen ++ [f])
+
+/-- the error `Reader.Read` reports (none: the tree reads) -/
+def firstError (fm : FileMap) (root : Nat) : Option Err :=
+  match walk fm (fm.length + 1) [] root [] with
+  | .ok _ => none
+  | .error e => some e
 
 /-- `Reader.Read` -/
 def readGraph (fm : FileMap) (root : Nat) : Except Err Graph :=
